@@ -235,6 +235,21 @@ def c_vec_new(eng, st, fr, f, args, site):
     return [(st, new_cont(eng, kind, Lin.const(0), None, None, rt))]
 
 
+@contract(r"^<(std|alloc)::(vec::Vec<T>|string::String) as (std|core)::default::Default>::default$|^(std|alloc)::vec::<impl (std|core)::default::Default for (std|alloc)::vec::Vec<T>>::default$|^(std|alloc)::string::<impl (std|core)::default::Default for (std|alloc)::string::String>::default$|^<(std|core)::option::Option<T> as (std|core)::default::Default>::default$")
+def c_default_cont(eng, st, fr, f, args, site):
+    """Default of Vec / String: empty; of Option: None."""
+    rt = ret_ty(eng, site)
+    if rt is None:
+        return None
+    t = eng.T.t(rt)
+    if t["k"] == "adt" and t.get("path") in ("std::option::Option", "core::option::Option"):
+        return [(st, Enum(rt, ((0, ()),), "dflt"))]
+    kind = eng.M.container_kind(rt)
+    if not kind:
+        return None
+    return [(st, new_cont(eng, kind, Lin.const(0), None, None, rt))]
+
+
 @contract(r"^(std|alloc)::vec::from_elem$")
 def c_from_elem(eng, st, fr, f, args, site):
     rt = ret_ty(eng, site)
@@ -343,7 +358,7 @@ def c_slice_iter(eng, st, fr, f, args, site):
     if vw is None:
         return None
     arr = vw.get("arr")
-    if arr is not None and len(arr.elems) <= 16 and "iter_mut" not in f["path"] and "mut" not in f["path"].split("IntoIterator")[-1] and not all(isinstance(e, Int) and e.w == 8 for e in arr.elems):
+    if arr is not None and len(arr.elems) <= 64 and "iter_mut" not in f["path"] and "mut" not in f["path"].split("IntoIterator")[-1] and not all(isinstance(e, Int) and e.w == 8 for e in arr.elems):
         # a small array whose elements are known (a constant table): the iterator knows its elements and position
         k = eng._hv()
         refs = []
@@ -435,9 +450,11 @@ def c_known_iter_search(eng, st, fr, f, args, site):
                 for truth in (True, False):
                     s2 = s1.fork()
                     try:
-                        eng.assume(s2, v.cond, truth)
+                        ki = eng.assume(s2, v.cond, truth)
                     except Dead:
                         continue
+                    if ki is not None and ki not in s2.key:
+                        s2.key = s2.key + (ki,)
                     hit = truth if op != "all" else (not truth)
                     if hit:
                         eng.M.write_path(s2, r.loc, r.path, Cont(it.kind, it.id, Lin.const(len(elems) - i - 1), None, (("elems", elems, i + 1),), it.ty))
